@@ -28,5 +28,10 @@ CONSTANTS
   BugCancelNoWake = FALSE
   BugRefill = FALSE
   BugNoClose = FALSE
+  Redis6 = FALSE
+  BugPurgeStop = FALSE
+  BugPendingExpires = FALSE
+  BugSkipEmbedded = FALSE
+  RaceFlight = FALSE
 INVARIANTS NoStaleHit
 CHECK_DEADLOCK FALSE
